@@ -10,6 +10,7 @@ import (
 	remoteexecution "github.com/bazelbuild/remote-apis/build/bazel/remote/execution/v2"
 	"github.com/buildbarn/bb-remote-execution/pkg/builder"
 	"github.com/buildbarn/bb-storage/pkg/digest"
+	"google.golang.org/protobuf/proto"
 )
 
 // activeExecs returns the executions whose fake Execute has not returned,
@@ -186,7 +187,7 @@ func (e *env) key() string {
 		fmt.Fprintf(&b, "E%d.%d", digestID(ex.ActionDigest), progressIndex(c, ex))
 	case kDone:
 		r := ex.GetCompleted()
-		own := c != nil && r == c.resp
+		own := c != nil && proto.Equal(r, c.respCopy)
 		fmt.Fprintf(&b, "C%d.%v.%v", digestID(ex.ActionDigest), r.GetStatus() != nil, own)
 	}
 	until := "nil"
@@ -208,7 +209,7 @@ func (e *env) key() string {
 					res = 2
 				}
 			}
-			fmt.Fprintf(&b, "|X%d.%v.%v.%d.%d", o.dig, o.active, o.ctx.Err() != nil, len(o.sent), res)
+			fmt.Fprintf(&b, "|X%d.%v.%v.%d.%d.%d.%d", o.dig, o.active, o.ctx.Err() != nil, len(o.sent), res, o.stale, o.ord%3)
 		}
 	}
 	// Worker position flags and monitors.
@@ -222,7 +223,7 @@ func (e *env) key() string {
 		wn = true
 	}
 	started := c != nil && c.ord > e.wantNewAfter
-	fmt.Fprintf(&b, "|m=%s.%s|nr=%v|wi=%v|wn=%v.%v|lk=%d", d, rel(e.n, e.now), e.needReadiness, e.wantIdle, wn, wn && started, e.lastReqKind)
+	fmt.Fprintf(&b, "|m=%s.%v.%s|nr=%v|wi=%v|wn=%v.%v|lk=%d", d, e.certainIdle, rel(e.n, e.now), e.needReadiness, e.wantIdle, wn, wn && started, e.lastReqKind)
 	return b.String()
 }
 
@@ -231,7 +232,7 @@ func (e *env) finish() {
 	e.mu.Lock()
 	done := e.done
 	active := len(e.activeExecs())
-	log := strings.Join(e.reqLog, " ")
+	log := strings.Join(e.reqLog, " ") + " " + e.exitNote
 	e.mu.Unlock()
 	if !done {
 		e.x.FailP(prop, "noexit/end", "worker thread did not terminate")
